@@ -3,6 +3,10 @@
 # Confirms in a scratch worktree of /repo: patch applies, builds, whole suite has the same failures as the
 # unmodified tree, demo fails with the patch and passes without. Prints a JSON summary line. Removes the worktree.
 set -u
+# scratch trees live at ever-changing paths: their build output goes to a separate cache that is
+# dropped when it grows (the shared cache would otherwise keep every one of them for days)
+export GOCACHE=/var/tmp/gocache.mut
+trap '[ "$(du -sm /var/tmp/gocache.mut 2>/dev/null | cut -f1)" -gt 8000 ] 2>/dev/null && rm -rf /var/tmp/gocache.mut' EXIT
 export GOFLAGS=-mod=mod GOPROXY=off
 patch="$(readlink -f "$1")"; demo="$(readlink -f "$2")"; sub="${3:-.}"
 W=/var/tmp/confirm.$$
